@@ -75,6 +75,8 @@ type thread struct {
 	heldGlob int // number of package-level mutexes currently held
 	library  bool
 	spawnedAt int // index of the transition that spawned this thread (-1: initial thread)
+	selReady  func() []int // pending select: the ready clauses
+	selChoice int          // which of the ready clauses the scheduler picked
 }
 
 // Point describes one decision of the scheduler at which more than one thread
@@ -126,6 +128,7 @@ type Exec struct {
 	Races         []Race
 	Steps         int
 	Threads       int
+	UsedSelect    bool // a select statement was executed (the reductions of mode A do not model its clause choice)
 	SleepBlocked  bool // the execution was cut because every enabled thread was in the sleep set (equivalent to explored ones)
 	ElisionBroken bool
 	Events        []string // optional trace (Config.Trace)
@@ -168,6 +171,7 @@ type sched struct {
 	machErr  string
 	sleep    map[int]bool
 	trans    []Trans
+	usedSelect bool
 	lastOp   pending // the operation granted to the thread that ran last
 	blocked  bool
 }
@@ -263,23 +267,32 @@ func (s *sched) pick() *thread {
 			}
 		}
 	}
+	addThread := func(t *thread) {
+		enabled = append(enabled, t.id)
+		if t.pend.kind == opSelect && t.selReady != nil {
+			// every further ready clause of a select is an alternative of its own
+			for alt := 1; alt < len(t.selReady()); alt++ {
+				enabled = append(enabled, t.id|alt<<16)
+			}
+		}
+	}
 	if cur != nil && !cur.done && (cur.pend.enabled == nil || cur.pend.enabled()) {
 		curEnabled = true
-		enabled = append(enabled, cur.id)
+		addThread(cur)
 	}
 	for _, t := range s.threads {
 		if t == cur || t.done {
 			continue
 		}
 		if t.pend.enabled == nil || t.pend.enabled() {
-			enabled = append(enabled, t.id)
+			addThread(t)
 		}
 	}
 	if len(enabled) == 0 {
 		return nil
 	}
 	idx := 0
-	if len(enabled) > 1 || (s.cfg.Sleep && s.sleep[enabled[0]]) {
+	if len(enabled) > 1 || (s.cfg.Sleep && s.sleep[enabled[0]&0xffff]) {
 		n := len(s.choices)
 		if s.cfg.Sleep && len(enabled) > 1 {
 			for _, u := range s.cfg.Installs[n] {
@@ -298,7 +311,7 @@ func (s *sched) pick() *thread {
 		if s.cfg.Sleep && !fromPrefix {
 			idx = -1
 			for i, u := range enabled {
-				if !s.sleep[u] {
+				if !s.sleep[u&0xffff] {
 					idx = i
 					break
 				}
@@ -311,7 +324,7 @@ func (s *sched) pick() *thread {
 		if len(enabled) > 1 {
 			var sl []int
 			for _, u := range enabled {
-				if s.sleep[u] {
+				if s.sleep[u&0xffff] && u>>16 == 0 {
 					sl = append(sl, u)
 				}
 			}
@@ -319,7 +332,8 @@ func (s *sched) pick() *thread {
 			s.points = append(s.points, Point{Enabled: enabled, CurEnabled: curEnabled, Chosen: idx, Sleep: sl})
 		}
 	}
-	next := s.threads[enabled[idx]]
+	next := s.threads[enabled[idx]&0xffff]
+	next.selChoice = enabled[idx] >> 16
 	s.lastOp = next.pend
 	if s.cfg.Sleep {
 		delete(s.sleep, next.id)
@@ -516,7 +530,7 @@ func RunOnce(cfg Config, prefix []int, threads []ThreadSpec) *Exec {
 	s.cur = first
 	first.wake <- struct{}{}
 	<-s.doneCh
-	ex := &Exec{Trans: s.trans, Choices: s.choices, Points: s.points, Deadlock: s.deadlock && !s.blocked, SleepBlocked: s.blocked, Steps: s.steps, Threads: len(s.threads)}
+	ex := &Exec{UsedSelect: s.usedSelect, Trans: s.trans, Choices: s.choices, Points: s.points, Deadlock: s.deadlock && !s.blocked, SleepBlocked: s.blocked, Steps: s.steps, Threads: len(s.threads)}
 	// collect stuck threads, then unwind them
 	for _, t := range s.threads {
 		if !t.done {
